@@ -6,7 +6,9 @@ lintcmd/runner (`Run` / `runAnalyzers` dispatcher loop, `genericHandle`,
 graphs, capacities and interleavings (exactly once, only after the dependencies, capacity,
 no deadlock + termination measure, results = bottom-up evaluation of the graph, the
 happens-before chain), and a model of collect/sort/de-duplicate of `printDiagnostics`
-(the printed list does not depend on the order of delivery, whatever algorithm sorts).
+(the printed list does not depend on the order of delivery, whatever algorithm sorts), and a
+literal model of the loops of `filterIgnored` (which directives are reported as useless and which
+problems are ignored does not depend on the order in which the directives are visited).
 
 Ties, checked on every run against the current tree:
   X-trace  the real `staticcheck` (built with -tags verif) logs every scheduling point of a
@@ -17,7 +19,12 @@ Ties, checked on every run against the current tree:
   X-sort   lists of problems (the real ones of a run, decoded from `-f binary`, and crafted
            ones with ties in every prefix of the comparator) are fed in permuted orders to
            the real `staticcheck -merge`; the printed order is compared with the model.
-Oracle on the real code: stdout/exit status byte-identical across repeated runs x
+  X-ignore the source text of the two loops of lintcmd.filterIgnored must read as the loops modelled
+           in Directives.lean (every directive is matched against every problem).
+Oracle on the real code: first a fixed corpus of three hand-written modules (corpus/C06/fixed: copied
+helpers.go in twin packages x pattern subsets; overlapping file/line directives x 14 cold-cache
+repetitions; a package on which 20 analyzers report 1080 problems x GOMAXPROCS sweep against a
+single worker + the -race build), then on generated modules: stdout/exit status byte-identical across repeated runs x
 GOMAXPROCS x seeded yields x orders of the patterns; the problems of a package identical
 whichever other packages are named; no report of the race detector from a `-race` build
 (run-time evidence only).
@@ -52,6 +59,9 @@ THEOREMS = [
     "Verif.C06.sorted_output_unique",
     "Verif.C06.printed_perm_invariant",
     "Verif.C06.printed_delivery_independent",
+    "Verif.C06.directives_order_independent",
+    "Verif.C06.directive_reported_iff",
+    "Verif.C06.skip_variant_order_dependent",
 ]
 CORPUS = os.path.join(vlib.VERIF, "corpus", "C06")
 STD_IMPORTS = ["errors", "fmt", "sort", "strings", "testing"]
@@ -577,11 +587,13 @@ def fixed_corpus(ctx, st, sc, scrace):
              byte-identical), every helper used in one package and unused in the other: the problems printed for a
              package must be the same in every invocation that names it (U1000 is reconciled across packages).
     overlap  files with > 8 commented nodes in which a //lint:file-ignore and a //lint:ignore cover the same
-             problem (several checks, a list of checks, a glob): OVERLAP_RUNS runs, each with an empty cache (the
+             problem (several checks, a list of checks, a glob), plus one directive per file that matches nothing
+             (so that "which directives are reported as useless" is a non-empty, fixed set): OVERLAP_RUNS runs, each with an empty cache (the
              order of the directives -- the iteration order of a map -- is stored with cached results), must print
              the same bytes.
-    many     three packages on each of which eight analyzers report 60 problems each: a single-worker run is the
-             reference for a sweep over GOMAXPROCS / yields with empty caches, and for the -race build."""
+    many     three packages on each of which eight analyzers report 60 problems each, and one package (`big`) on
+             which twenty analyzers report >= 40 problems each (1080 in all): a single-worker run is the reference,
+             byte for byte, for a sweep over GOMAXPROCS / yields with empty caches, and for the -race build."""
     out = {}
     base_args = ["-f", "json", "-checks", "all", "-tests=false"]
 
@@ -672,8 +684,14 @@ def fixed_corpus(ctx, st, sc, scrace):
                     "note": "each run starts from an empty cache; the difference may need several repetitions to show (map iteration order)"}),
                 text="C06: %d different outputs in %d cold-cache runs of `staticcheck %s` on corpus/C06/fixed/overlap (%s): %s"
                      % (len(outs), len(res), " ".join(a.cfg["args"]), [len(g) for g in groups], first_diff(a.out, b.out)))
-        elif res[0].out.strip():
-            ctx.notes.append("fixed corpus overlap: every directive matches, yet problems are printed: %s" % res[0].out[:300])
+        else:
+            # expected on a healthy tree: exactly the directives of the Plain* functions (they match nothing) are reported
+            msgs = [json.loads(l) for l in res[0].out.splitlines()]
+            plain = sum(f.count("func Plain") for f in files.values())
+            out["overlap_useless_directives_reported"] = len(msgs)
+            if len(msgs) != plain or any("didn't match anything" not in m["message"] for m in msgs):
+                ctx.notes.append("fixed corpus overlap: expected the %d directives that match nothing to be reported and nothing else, got %d lines: %s"
+                                 % (plain, len(msgs), res[0].out[:300]))
     out["overlap_runs"] = OVERLAP_RUNS
 
     # ---- many: GOMAXPROCS sweep against a single worker, -race build
@@ -727,6 +745,27 @@ def fixed_corpus(ctx, st, sc, scrace):
                     text="C06: -race build output differs on corpus/C06/fixed/many (%s): %s" % (r.cfg, first_diff(ref.out, r.out)))
     out["many_sweep"] = MANY_SWEEP
     return out
+
+
+# --------------------------------------------------------------------------- X-ignore (source shape of filterIgnored)
+FILTER_LOOP = ("for _, ig := range ignores { for i := range diagnostics { diag := &diagnostics[i] if ig.match(*diag) { "
+               "diag.Severity = severityIgnored } } if ig, ok := ig.(*lineIgnore); ok && !ig.Matched && couldHaveMatched(ig) {")
+
+
+def filter_ignored_shape():
+    """The loops of lintcmd.filterIgnored, white space normalised, must read exactly like the loops modelled in
+    Directives.lean (outerLoop innerAll): every directive is matched against every problem, nothing in between.
+    Returns None when they do, else what was found."""
+    try:
+        src = open(os.path.join(vlib.REPO, "lintcmd", "lint.go")).read()
+    except OSError as e:
+        return "lintcmd/lint.go: %s" % e
+    m = re.search(r"\n\tfor _, ig := range ignores \{.*?couldHaveMatched\(ig\) \{", src, re.S)
+    if not m:
+        return "the loop over `ignores` was not found in lintcmd/lint.go"
+    got = re.sub(r"//[^\n]*", "", m.group(0))
+    got = re.sub(r"\s+", " ", got).strip()
+    return None if got == FILTER_LOOP else got
 
 
 # --------------------------------------------------------------------------- the check
@@ -983,6 +1022,7 @@ def run(ctx):
     lap("corpus")
     fixed_stats = fixed_corpus(ctx, st, sc, scrace)
     lap("fixed corpus of real modules (twins, overlap, many)")
+    ignore_shape = filter_ignored_shape()
 
     # warm the std facts (only the normal binary analyses std-importing modules); this runs in
     # the background while the modules without std imports are explored
@@ -1103,22 +1143,24 @@ def run(ctx):
         "printDiagnostics; outside the model: loader, cache, the analyzers, formatters, go list",
     ]
 
-    tie_broken = bool(st["trace_rejects"]) or bool(sort_diffs) or bool(corpus_bad) or not lean_ok
+    tie_broken = bool(st["trace_rejects"]) or bool(sort_diffs) or bool(corpus_bad) or not lean_ok or ignore_shape is not None
     if tie_broken and st["oracle_failures"] == 0:
         # violation search already happened: the whole matrix above is the search (every run is an oracle evaluation)
         obj = {"what": "the model no longer corresponds to the code (or a proof no longer checks); the oracle held on every explored run",
                "lean": lean_broke, "trace_rejects": [{k: v for k, v in t.items() if k not in ("files", "meta")} for t in st["trace_rejects"][:5]],
                "sort_model_diffs": sort_diffs[:5], "model_corpus_regressions": corpus_bad[:10],
-               "correspondence": "X-trace (scheduler instances of traced runs through c06driver), X-sort (-merge order vs model); theorems " + ", ".join(THEOREMS)}
+               "filterIgnored_loops": None if ignore_shape is None else {"expected (modelled by Directives.lean)": FILTER_LOOP, "found": ignore_shape},
+               "correspondence": "X-trace (scheduler instances of traced runs through c06driver), X-sort (-merge order vs model), X-ignore (source shape of the loops of filterIgnored); theorems " + ", ".join(THEOREMS)}
         if st["trace_rejects"]:
             t = st["trace_rejects"][0]
             obj["module_tar_gz_base64"] = tar_b64(t["files"])
             obj["run"] = t["run"]
         ctx.violation("correspondence.json", obj, nofail=True,
-                      text="C06: model/implementation correspondence broke (%d trace rejects, %d sort diffs, lean_ok=%s) but no run violated the oracle"
-                           % (len(st["trace_rejects"]), len(sort_diffs), lean_ok))
+                      text="C06: model/implementation correspondence broke (%d trace rejects, %d sort diffs, lean_ok=%s, filterIgnored loops as modelled=%s) but no run violated the oracle"
+                           % (len(st["trace_rejects"]), len(sort_diffs), lean_ok, ignore_shape is None))
     elif tie_broken:
-        ctx.notes.append("correspondence also broke: %d trace rejects, %d sort diffs, lean_ok=%s" % (len(st["trace_rejects"]), len(sort_diffs), lean_ok))
+        ctx.notes.append("correspondence also broke: %d trace rejects, %d sort diffs, lean_ok=%s, filterIgnored loops as modelled=%s"
+                         % (len(st["trace_rejects"]), len(sort_diffs), lean_ok, ignore_shape is None))
         if st["trace_rejects"]:
             t = st["trace_rejects"][0]
             ctx.violation("trace_reject.json", replay_obj(
@@ -1179,21 +1221,28 @@ def replay(ctx, sc, scrace, st):
 META = {
     "level": "proof",
     "technique": "Lean 4 invariant proof over an LTS model of the runner's action scheduler (all DAGs, capacities, interleavings) and of "
-                 "collect/sort/dedup of printDiagnostics; trace refinement of real runs through the compiled model; differential runs of the real "
-                 "binary (GOMAXPROCS x seeded yields x pattern orders/subsets) and a -race build as oracle",
+                 "collect/sort/dedup of printDiagnostics and of the directive loops of filterIgnored; trace refinement of real runs through the "
+                 "compiled model; differential runs of the real binary (a fixed corpus of hand-written modules, then generated ones: "
+                 "GOMAXPROCS x seeded yields x pattern orders/subsets x cold-cache repetition) and a -race build as oracle",
     "text": "Proved over the model for every action graph, semaphore capacity and interleaving: every action is executed exactly once, only after all "
             "its dependencies (pending = 0; exec d < dec < zero < exec a as a chain of synchronising events), tokens held never exceed the capacity and "
             "at most one handler per instance runs inline without a token, no deadlock (some event of the instance is always enabled until the loop "
             "ends; the queue is never sent on after close; the runAnalyzers buffer never overflows), termination (a measure every event decreases), and "
             "the results equal the bottom-up evaluation of the graph whatever the schedule (hypothesis: an action's result is a function of its "
             "dependencies' results), each result depending only on the action's dependency cone; the comparator of printDiagnostics is a strict total "
-            "order on descriptor+build name, so the printed list is the same for every order of delivery and every sorting algorithm. The model is tied "
+            "order on descriptor+build name, so the printed list is the same for every order of delivery and every sorting algorithm; the loops of "
+            "filterIgnored (every directive matched against every problem) report the same useless directives and leave the same severities for "
+            "every order in which the directives are visited, and the variant that skips already-ignored problems does not. The model is tied "
             "to the current code on every run: scheduling traces of real runs (verif hook) must be admitted by the compiled model with well-formed "
-            "graphs, and the real -merge path must print crafted and real problem lists in the model's order. Byte-identical output across repeated "
+            "graphs, the real -merge path must print crafted and real problem lists in the model's order, and the source text of the loops of "
+            "filterIgnored must read as modelled. Explored, not proved: a fixed corpus of three modules (copied helpers.go in twin packages under "
+            "11 pattern subsets; overlapping file/line ignore directives in 8 files x 14 cold-cache runs; 20 analyzers x >= 40 problems on one "
+            "package, single worker vs 10 cold runs at 3..16 workers and the -race build). Byte-identical output across repeated "
             "runs x GOMAXPROCS 1..16 x seeded yields x pattern orders, per-package independence from the other named packages, and absence of data-race "
             "reports from a -race build are explored on generated multi-package modules, not proved.",
     "note": "Race freedom in the Go memory model is run-time evidence only (race detector on the explored runs). Determinism of the analyzers "
-            "themselves (map iteration inside U1000, directives, fact export) is a hypothesis of the theorem and is only explored by repeated real runs. "
+            "themselves (map iteration inside U1000, fact export) is a hypothesis of the theorem and is only explored by repeated real runs; the "
+            "reconciliation of U1000 across packages (unusedKey) and lineIgnore.match are not modelled; the filterIgnored tie is textual. "
             "Trusted: Lean kernel, compiled c06driver, the verif trace hook (lintcmd/runner/verif_on.go) and its placement contract, checks/c06.py, "
             "harness/cmd/c06gob, Go toolchain and race detector.",
     "design_ref": "DESIGN.md section 5, C06",
